@@ -29,6 +29,10 @@ def record_one(job):
 
     from . import build as _B
 
+    if job.get("recorder") == "edge":
+        from . import edge
+
+        return edge.record_one(dict(job, repo=REPO))
     if job.get("recorder") == "userfcn":
         from . import userfcn
 
